@@ -172,6 +172,7 @@ func (w *World) notePanics(ts []*simrt.Task) {
 func (w *World) finalChecks(t *simrt.Task) {
 	crashFree := w.Crashes == 0
 	lockLeft := false
+	lockExcused := false
 	t.Quiet(func() {
 		es, err := w.Sim.FS.ReadDir(DBDir)
 		if err != nil {
@@ -183,6 +184,14 @@ func (w *World) finalChecks(t *simrt.Task) {
 		}
 		var extra []string
 		for _, e := range es {
+			if w.excused[filepath.Join(DBDir, e.Name)] {
+				// its unlink was the injected failure
+				if pathClassOf(e.Name) == "listlock" {
+					lockLeft, lockExcused = true, true
+				}
+				listed[e.Name] = true
+				continue
+			}
 			if !listed[e.Name] {
 				extra = append(extra, pathClassOf(e.Name))
 			}
@@ -229,7 +238,7 @@ func (w *World) finalChecks(t *simrt.Task) {
 		return
 	}
 	// progress: one more Add through the fresh handle succeeds.
-	if crashFree || !lockLeft {
+	if (crashFree || !lockLeft) && !lockExcused {
 		tx := TxnSpec{ID: 999999, Refs: []RefSpec{{Name: "refs/final/probe", Kind: RefVal}}}
 		add := OpSpec{Kind: OpAdd, H: finalHandle, Txns: []TxnSpec{tx}}
 		if !w.Spec.Cfg.SkipNameCheck {
